@@ -13,6 +13,7 @@ bit for bit (output, selected-output values and text, error, warning, dump strin
 import os
 import re
 
+import gen_comparators
 import gen_globals
 import gen_lock_audit
 from gens import threads as gt
@@ -167,6 +168,31 @@ def tsan_reports(stderr, transport_phase=False):
     return out
 
 
+def duplicates(ctx, label, jobs, res, judged, hist, replay):
+    """identical jobs inside ONE process (same database, same input) must give identical results wherever they run in the
+    process's history — the first instance, after other workloads have come and gone, next to live neighbours, on any thread"""
+    groups = {}
+    for k, j in enumerate(jobs):
+        groups.setdefault((j[1], j[2], j[3] if len(j) > 3 else ""), []).append(k)
+    for ks in groups.values():
+        have = [k for k in ks if k in res]
+        if len(have) < 2:
+            continue
+        hist["duplicate_comparisons"] = hist.get("duplicate_comparisons", 0) + len(have) - 1
+        a = res[have[0]]
+        for k in have[1:]:
+            b = res[k]
+            if a["rc"] != b["rc"] or a["h"] != b["h"] or a["rows"] != b["rows"]:
+                ch = [n for n, x, y in zip(["output", "selected", "error", "warning", "dump", "components"], a["h"], b["h"]) if x != y]
+                what = (f"{label}: the same job ({jobs[k][0]}) run as job {have[0]} and as job {k} of one process differs in {ch or 'return code'}"
+                        " (results depend on what ran before / next to the instance)")
+                if judged:
+                    ctx.violation(what, dict(replay, jobs=jobs, job_index=k))
+                else:
+                    ctx.finding("transport-file-scope-globals", what, dict(replay, jobs=jobs))
+                return
+
+
 def compare(ctx, label, jobs, ref, got, judged, hist):
     """bitwise comparison of every channel of every job; returns list of (job index, what)"""
     bad = []
@@ -213,7 +239,11 @@ def explore_with(ctx, exe, exet, budget, tsan_budget, repeats, thread_counts, hi
     loads += gt.tiny_db_jobs(rng, 2)        # databases with 0 / 1 master species: `if (n > 1) qsort(...)` with n <= 1
     nf = len(gt.FAMILIES)
     # every family once, then the database loads, then the rest: the TSan run takes a prefix of this list
-    strict = [j for j in jobs[:nf] if j[0] not in TRANSPORT_FAMILIES] + loads + [j for j in jobs[nf:] if j[0] not in TRANSPORT_FAMILIES]
+    tie = gt.fixed_tie_job()
+    # the fixed tie job (order of equal-keyed items in BASIC lists) runs as the FIRST instance of every process, in the middle and
+    # last: identical jobs at different points of a process's allocation history must give identical bytes
+    strict = [tie] + [j for j in jobs[:nf] if j[0] not in TRANSPORT_FAMILIES] + loads[:len(loads) // 2] + [tie] + loads[len(loads) // 2:] + \
+        [j for j in jobs[nf:] if j[0] not in TRANSPORT_FAMILIES] + [tie]
     trans = [j for j in jobs if j[0] in TRANSPORT_FAMILIES] + gt.multi_d_jobs(rng, max(2, budget // 10))
     for j in strict + trans:
         hist["families"][j[0]] = hist["families"].get(j[0], 0) + 1
@@ -233,6 +263,20 @@ def explore_with(ctx, exe, exet, budget, tsan_budget, repeats, thread_counts, hi
                           {"mode": "seq", "jobs": js, "stderr": err[-2000:]})
             continue
         hist["jobs_with_error_rc"] += sum(1 for r in ref.values() if r["rc"] != 0)
+        duplicates(ctx, f"{label}, sequential", js, ref, judged, hist, {"mode": "seq", "coexist": 0, "churn": 0})
+        # the same jobs in another order (each instance then has other predecessors: another allocation history)
+        perm = list(range(len(js)))
+        rng.shuffle(perm)
+        rc, got, _, err = run_h(ctx, exe, [js[i] for i in perm], 1, rng.randint(0, 3), rng.randint(0, 2))
+        evals += len(js)
+        hist["permuted_reruns"] += 1
+        back = {perm[k]: v for k, v in got.items()}
+        for k, what in compare(ctx, "same jobs in another order", js, ref, back, judged, hist):
+            if judged:
+                ctx.violation("results are not a function of the call sequence: " + what,
+                              {"mode": "seq", "jobs": [js[i] for i in perm], "job_index": perm.index(k), "permuted": True})
+            else:
+                ctx.finding("transport-file-scope-globals", what, {"mode": "seq", "jobs": js})
         for k, r in ref.items():
             distinct.add((js[k][0], r["h"][0]))
         ctx.sample(f"{label} job 0 ({js[0][0]}): rc={ref[0]['rc']} rows={ref[0]['rows']} output-hash={ref[0]['h'][0]}")
@@ -242,6 +286,7 @@ def explore_with(ctx, exe, exet, budget, tsan_budget, repeats, thread_counts, hi
             rc, got, ids2, err = run_h(ctx, exe, js, 1, co, ch)
             evals += len(js)
             hist["sequential_reruns"] += 1
+            duplicates(ctx, f"{label}, sequential with {co} co-existing instances", js, got, judged, hist, {"mode": "seq", "coexist": co, "churn": ch})
             for k, what in compare(ctx, f"process re-run with {co} co-existing instances", js, ref, got, True, hist):
                 ctx.violation("results are not a function of the call sequence: " + what,
                               {"mode": "seq", "coexist": co, "churn": ch, "jobs": [js[k]], "job_index": k})
@@ -272,6 +317,7 @@ def explore_with(ctx, exe, exet, budget, tsan_budget, repeats, thread_counts, hi
                     continue
                 if len(set(ids3)) != len(ids3):
                     ctx.violation(f"instance ids handed out to {nt} threads are not unique", {"mode": "par", "threads": nt, "ids": ids3, "jobs": js})
+                duplicates(ctx, f"{label}, {nt} threads", js, got, judged, hist, {"mode": "par", "threads": nt, "coexist": co, "churn": ch})
                 for k, what in compare(ctx, f"{nt} threads", js, ref, got, judged, hist):
                     if judged:
                         ctx.violation("results depend on what other threads do: " + what,
@@ -485,12 +531,15 @@ def run(ctx):
     hist = {"families": {}, "job_comparisons": 0, "sequential_reruns": 0, "thread_runs": 0, "tsan_runs": 0, "tsan_reports": 0,
             "tsan_reports_known": 0, "ids_checked": 0, "jobs_with_error_rc": 0, "lock_balance_runs": 0, "unlock_without_lock": 0,
             "hold_hist": {}, "nested_pairs": {}, "nested_identical": 0, "nested_known_effect": 0, "nested_not_reached": 0,
-            "default_name_checks": 0, "id_pairs": [], "burst_runs": 0}
+            "default_name_checks": 0, "id_pairs": [], "burst_runs": 0, "duplicate_comparisons": 0, "permuted_reruns": 0}
     audit, glob = {}, {}
     translators_ok = True
     try:
         audit = gen_lock_audit.generate(ctx)
         glob = gen_globals.generate(ctx)
+        cmpr = gen_comparators.generate(ctx)
+        hist["comparators"] = {"functions": len(cmpr["comparators"]), "sort_call_sites": cmpr["sort_sites"],
+                               "not_analysed": cmpr["not_analysed"], "pointer_keyed_types": [t for t, _ in cmpr["pointer_keyed"]]}
     except Exception as e:
         translators_ok = False
         ctx.proof_broken.append({"stage": "translator", "error": str(e)[:1000]})
@@ -555,6 +604,7 @@ def replay(ctx, data):
     exe = ctx.build_harness("ph_threads", extra=LOCKMON)
     rc, ref, ids, err = run_h(ctx, exe, jobs, 1, 0, 0)
     mode = data.get("mode", "par")
+    duplicates(ctx, "replayed, sequential", jobs, ref, True, hist, {"mode": "seq"})
     if LAST.get("lockbal") and LAST["lockbal"][0] + LAST["lockbal"][1] > 0:
         ctx.violation(f"replayed: a lock was released without being held (qsort_lock, map_lock) = {LAST['lockbal']}", {"jobs": jobs, "mode": "seq"})
     if mode == "nested":
